@@ -1,6 +1,9 @@
 package main
 
 import (
+	"fmt"
+	"io"
+	"os"
 	"strings"
 
 	"github.com/simonvetter/modbus"
@@ -27,6 +30,21 @@ func init() {
 		}
 		return sb.String()
 	}
+	// errmap: the exception code the SERVER answers for each error a handler may
+	// return: every exported error value of the library plus foreign errors
+	executors["errmap"] = func(in []string) string {
+		errs := []error{modbus.ErrConfigurationError, modbus.ErrRequestTimedOut, modbus.ErrIllegalFunction,
+			modbus.ErrIllegalDataAddress, modbus.ErrIllegalDataValue, modbus.ErrServerDeviceFailure,
+			modbus.ErrAcknowledge, modbus.ErrServerDeviceBusy, modbus.ErrMemoryParityError,
+			modbus.ErrGWPathUnavailable, modbus.ErrGWTargetFailedToRespond, modbus.ErrBadCRC, modbus.ErrShortFrame,
+			modbus.ErrProtocolError, modbus.ErrBadUnitId, modbus.ErrBadTransactionId, modbus.ErrUnknownProtocolId,
+			modbus.ErrUnexpectedParameters, io.EOF, os.ErrDeadlineExceeded, fmt.Errorf("x"), modbus.Error("illegal function ")}
+		var p []string
+		for _, e := range errs {
+			p = append(p, itoa(int(modbus.VerifMapErrorToExceptionCode(e))))
+		}
+		return strings.Join(p, ",")
+	}
 	executors["excmap"] = func(in []string) string {
 		var p []string
 		for c := 0; c < 256; c++ {
@@ -42,3 +60,7 @@ func scnTables(o *Out, r *Rng, thorough bool) {
 	}
 	o.Run("excmap", "all")
 }
+
+func scnErrMap(o *Out, r *Rng, thorough bool) { o.Run("errmap", "all") }
+
+func init() { register("C03", scnErrMap); register("C04", scnErrMap) }
